@@ -388,7 +388,7 @@ class Func:
                     s = stmts[k]
                     if s['k'] == 'assign' and not s['lhs']['p'] and s['lhs']['l'] in tracked:
                         rv = s['rv']
-                        if rv['k'] == 'use' and rv['op'].get('k') == 'const':
+                        if rv['k'] == 'use' and rv['op'].get('k') == 'const' and const_val(rv['op']) is not None:
                             envd[s['lhs']['l']] = const_val(rv['op'])
                         elif rv['k'] == 'use' and 'l' in rv['op'] and rv['op']['l'] in envd:
                             envd[s['lhs']['l']] = envd[rv['op']['l']]
@@ -436,7 +436,7 @@ class Func:
                     s = stmts[k]
                     if s['k'] == 'assign' and not s['lhs']['p'] and s['lhs']['l'] in tracked:
                         rv = s['rv']
-                        if rv['k'] == 'use' and rv['op'].get('k') == 'const':
+                        if rv['k'] == 'use' and rv['op'].get('k') == 'const' and const_val(rv['op']) is not None:
                             envd[s['lhs']['l']] = const_val(rv['op'])
                         elif rv['k'] == 'use' and 'l' in rv['op'] and rv['op']['l'] in envd:
                             envd[s['lhs']['l']] = envd[rv['op']['l']]
@@ -1026,7 +1026,13 @@ def variant_edges(f, adt, variant, place_pred=None, cleanup=False):
                 ee = effective_edge(f, ce)
                 if ee not in comp:
                     comp.append(ee)
-        out.append({'edge': effective_edge(f, e), 'raw': e, 'complement': comp, 'si': si})
+        shared_with = []
+        for name in list(si['variants'].keys()) + list(si.get('otherwise_variants', [])):
+            if name != variant:
+                ce = f.variant_edge(si, name)
+                if ce and ce[1] == e[1]:
+                    shared_with.append(name)
+        out.append({'edge': effective_edge(f, e), 'raw': e, 'complement': comp, 'si': si, 'shared_with': shared_with})
     return out
 
 
